@@ -79,12 +79,16 @@ func (mgr *TopicManager) unsubscribe(topics []string, clientID string) error {
 	mgr.Lock()
 	defer mgr.Unlock()
 
+	// Work through the whole batch: callers forget every filter of the batch in the
+	// session whatever is returned here, so a malformed filter must not keep the
+	// filters that follow it in the trie.
+	var firstErr error
 	for _, t := range topics {
-		if err := mgr.remove(t, clientID); err != nil {
-			return err
+		if err := mgr.remove(t, clientID); err != nil && firstErr == nil {
+			firstErr = err
 		}
 	}
-	return nil
+	return firstErr
 }
 
 // findSubscribers is used to find all clients that subscribe a certain topic directly or use wildcard.
